@@ -6,12 +6,12 @@ use yata::core::{Method, PeriodType, ValueType};
 use yata::helpers::Peekable;
 use yata::methods::*;
 
-fn params() -> (PeriodType, usize) {
+fn c04_params() -> (PeriodType, usize) {
 	(rsx::param("n") as PeriodType, rsx::param("t") as usize)
 }
 
 pub fn c04_smm() {
-	let (n, t) = params();
+	let (n, t) = c04_params();
 	let v0 = rsx::val("v0");
 	let mut m = SMM::new(n, &v0).unwrap();
 	let mut hist: Vec<ValueType> = vec![v0; n as usize];
@@ -26,7 +26,7 @@ pub fn c04_smm() {
 }
 
 pub fn c04_highest() {
-	let (n, t) = params();
+	let (n, t) = c04_params();
 	let v0 = rsx::val("v0");
 	let mut m = Highest::new(n, &v0).unwrap();
 	let mut hist: Vec<ValueType> = vec![v0; n as usize];
@@ -41,7 +41,7 @@ pub fn c04_highest() {
 }
 
 pub fn c04_lowest() {
-	let (n, t) = params();
+	let (n, t) = c04_params();
 	let v0 = rsx::val("v0");
 	let mut m = Lowest::new(n, &v0).unwrap();
 	let mut hist: Vec<ValueType> = vec![v0; n as usize];
@@ -56,7 +56,7 @@ pub fn c04_lowest() {
 }
 
 pub fn c04_delta() {
-	let (n, t) = params();
+	let (n, t) = c04_params();
 	let v0 = rsx::val("v0");
 	let mut m = HighestLowestDelta::new(n, &v0).unwrap();
 	let mut hist: Vec<ValueType> = vec![v0; n as usize];
@@ -72,7 +72,7 @@ pub fn c04_delta() {
 }
 
 pub fn c04_highest_index() {
-	let (n, t) = params();
+	let (n, t) = c04_params();
 	let v0 = rsx::val("v0");
 	let mut m = HighestIndex::new(n, &v0).unwrap();
 	let mut hist: Vec<ValueType> = vec![v0; n as usize];
@@ -87,7 +87,7 @@ pub fn c04_highest_index() {
 }
 
 pub fn c04_lowest_index() {
-	let (n, t) = params();
+	let (n, t) = c04_params();
 	let v0 = rsx::val("v0");
 	let mut m = LowestIndex::new(n, &v0).unwrap();
 	let mut hist: Vec<ValueType> = vec![v0; n as usize];
